@@ -103,7 +103,18 @@ VALUE_PROGRAMS = [
 ]
 
 # loops, irreducible flow, recursion, many call sites (C12 / C06)
-LOOP_PROGRAMS = [
+# a short main followed by a table of one-instruction dead loops (every dead loop is promoted to a root on its own:
+# the worst case for the number of sweeps, see PassLoop.tla)
+def trap_table(n, body=1):
+    return ("main:\n    li a0, 1\n    li a7, 1\n    ecall\n    li a7, 10\n    ecall\n"
+            + "".join(f"trap_{i}:\n" + "    addi t0, t0, 1\n" * (body - 1) + f"    j trap_{i}\n" for i in range(n)))
+
+
+TRAP_TABLES = [trap_table(3), trap_table(8), trap_table(16), trap_table(8, 2),
+               # a chain: each dead loop also jumps into the one before it
+               "main:\n    li a7, 10\n    ecall\n" + "".join(f"d{i}:\n    beqz t0, d{i}\n    j d{max(i - 1, 0)}\n" for i in range(6))]
+
+LOOP_PROGRAMS = TRAP_TABLES + [
     # dead code that jumps to a live label (C12: a second value analysis used to change the result)
     "main:\nK1:\nK2:\n    ret\nL1:\n    j K2\n    ecall\n    li t0, 1\n    li a7, 10\n    ecall\nL2:\n    j L1\n    ret\n",
     "main:\n    li a0, 1\nK:\n    addi a0, a0, 1\n    li a7, 10\n    ecall\nD1:\n    li a0, 5\n    j K\nD2:\n    j D1\n",
